@@ -85,7 +85,7 @@ def provChar : Prov → String
 /-- replay one `I orc` record; returns the O line and the provenance of the advanced state afterwards -/
 def orcRecord (adv : Prov) (toks : List String) : String × Prov :=
   match toks with
-  | hec :: forced :: pin :: status :: interp :: nSteps :: dErr :: bar :: rest =>
+  | hec :: forced :: pin :: status :: interp :: nSteps :: dErr :: infS :: peS :: bar :: rest =>
     if bar != "|" then ("O orc PARSE", adv) else
     let hasErrCtl := hec == "1"
     let forced := forced == "1"
@@ -94,6 +94,9 @@ def orcRecord (adv : Prov) (toks : List String) : String × Prov :=
     let stepCalls := calls.filter (·.dontThrow)
     let throwCalls := calls.filter (fun c => !c.dontThrow)
     let nFail := (stepCalls.filter (fun c => !c.ok)).length
+    -- every projection call of the integrator must carry the options the user set on the integrator:
+    -- UseInfinityNorm <- setUseInfinityNorm, ForceProjection <- setProjectEveryStep (both helpers, throwing or not)
+    let optBits := calls.foldl (fun acc _ => acc ++ infS ++ peS) "o"
     match attemptsOf stepCalls with
     | none => ("O orc TRACE_SHAPE", adv)
     | some vis =>
@@ -115,10 +118,10 @@ def orcRecord (adv : Prov) (toks : List String) : String × Prov :=
           | some (_, _, ef) => if forced then dErr.toNat! == 0 else ef ≤ dErr.toNat!
           | none => true
       match callProv hasErrCtl forced projInterp adv obs with
-      | none => ("O orc EXC X " ++ toString nFail ++ " X", adv)
+      | none => ("O orc EXC X " ++ toString nFail ++ " X " ++ optBits, adv)
       | some (a2, r) =>
         if !efOK then ("O orc ERRTEST_COUNT", a2) else
-        ("O orc " ++ status ++ " " ++ provChar r ++ " " ++ toString nFail ++ " " ++ provChar a2, a2)
+        ("O orc " ++ status ++ " " ++ provChar r ++ " " ++ toString nFail ++ " " ++ provChar a2 ++ " " ++ optBits, a2)
   | _ => ("O orc PARSE", adv)
 
 def tagOf (toks : List String) : String :=
